@@ -121,6 +121,12 @@ class ContiguousVectorIterator
         return copy;
     }
 
+    [[nodiscard]] friend constexpr ContiguousVectorIterator operator+(difference_type diff,
+                                                                      const ContiguousVectorIterator& it) noexcept
+    {
+        return it + diff;
+    }
+
     [[nodiscard]] constexpr difference_type operator+(ContiguousVectorIterator it) const noexcept { return i_ + it.i_; }
 
     constexpr ContiguousVectorIterator& operator+=(difference_type diff) noexcept
